@@ -88,6 +88,7 @@ def run(R):
     rexe, hexe = b
     # ---- generator identity (finite direct decision) ----
     gi = codecgen.generator_identity(pkgs, cc.rundir(R))
+    cc.drain_notes(R)
     R.coverage["generator_identity"] = {d: (ok, det) for d, ok, det in gi}
     for d, ok, det in gi:
         if not ok:
